@@ -218,20 +218,32 @@ func leafField(fset *token.FileSet, fd *ast.FuncDecl, recv string, e ast.Expr) s
 		seen[name] = true
 		res := ""
 		ast.Inspect(fd.Body, func(n ast.Node) bool {
-			as, ok := n.(*ast.AssignStmt)
-			if !ok || res != "" {
+			if res != "" {
 				return true
 			}
-			for i, l := range as.Lhs {
+			var lhs []ast.Expr
+			var rhss []ast.Expr
+			switch x := n.(type) {
+			case *ast.AssignStmt:
+				lhs, rhss = x.Lhs, x.Rhs
+			case *ast.ValueSpec: // var ( a = f(x) ... )
+				for _, nm := range x.Names {
+					lhs = append(lhs, nm)
+				}
+				rhss = x.Values
+			default:
+				return true
+			}
+			for i, l := range lhs {
 				li, ok := l.(*ast.Ident)
 				if !ok || li.Name != name {
 					continue
 				}
 				var rhs ast.Expr
-				if len(as.Rhs) == len(as.Lhs) {
-					rhs = as.Rhs[i]
-				} else if len(as.Rhs) == 1 {
-					rhs = as.Rhs[0]
+				if len(rhss) == len(lhs) {
+					rhs = rhss[i]
+				} else if len(rhss) == 1 {
+					rhs = rhss[0]
 				}
 				if rhs == nil {
 					continue
